@@ -82,14 +82,14 @@ import "github.com/biogo/biogo/feat"
 
 //@ func (*CodingTranscript).UTR5
 //@   property C20
-//@   requires t != nil && depth(t) < 1000 && baseOriOf(t) != 0
+//@   requires t != nil && depth(t) <= 1000 && baseOriOf(t) != 0
 //@   ensures [fresh]   typeis(result, *TranscriptFeature) && fresh(ref(result))
 //@   ensures [forward] baseOriOf(t) == 1 ==> result.(*TranscriptFeature).Offset == 0 && result.(*TranscriptFeature).Length == t.CDSstart
 //@   ensures [reverse] baseOriOf(t) == -1 ==> result.(*TranscriptFeature).Offset == t.CDSend && result.(*TranscriptFeature).Length == exonsEnd(t.exons) - t.CDSend
 //@   assigns fresh
 //@ func (*CodingTranscript).UTR3
 //@   property C20
-//@   requires t != nil && depth(t) < 1000 && baseOriOf(t) != 0
+//@   requires t != nil && depth(t) <= 1000 && baseOriOf(t) != 0
 //@   ensures [fresh]   typeis(result, *TranscriptFeature) && fresh(ref(result))
 //@   ensures [forward] baseOriOf(t) == 1 ==> result.(*TranscriptFeature).Offset == t.CDSend && result.(*TranscriptFeature).Length == exonsEnd(t.exons) - t.CDSend
 //@   ensures [reverse] baseOriOf(t) == -1 ==> result.(*TranscriptFeature).Offset == 0 && result.(*TranscriptFeature).Length == t.CDSstart
@@ -105,7 +105,7 @@ import "github.com/biogo/biogo/feat"
 //@ func verifLemmaRegionsTile
 //@   property C20
 //@   lemma
-//@   requires t != nil && depth(t) < 1000 && baseOriOf(t) != 0
+//@   requires t != nil && depth(t) <= 1000 && baseOriOf(t) != 0
 //@   ensures [forward] baseOriOf(t) == 1 ==> u5.(*TranscriptFeature).Offset == 0
 //@               && u5.(*TranscriptFeature).Offset + u5.(*TranscriptFeature).Length == cds.(*TranscriptFeature).Offset
 //@               && cds.(*TranscriptFeature).Offset + cds.(*TranscriptFeature).Length == u3.(*TranscriptFeature).Offset
